@@ -13,6 +13,8 @@ def fr(x):
 
 
 def act_tokens(a):
+    if a[0] == 'note':
+        return 'log'             # to the time model a note event is a log line; its bundles are in the NRT score
     if a[0] == 'draw':
         return 'draw'            # which builtin random function is called does not matter to the model
     return ' '.join(str(t) for t in a)
@@ -80,6 +82,7 @@ def expected(case, start=0, clocks_exact=True):
     start = F(start)
     maps = [TempoMap(t, start) for t in case['tempi']]
     R, L, spawn_at, defer_at = {}, {}, {}, {}
+    sig_at = {}                       # class U: the root signals / unhangs a condition
     pause_at, resume_at = {}, {}      # class P: the root pauses / resumes (without a clock argument) another routine
 
     def b2s(clk, b):
@@ -107,6 +110,17 @@ def expected(case, start=0, clocks_exact=True):
                 R[(rid, k + 1)] = (clk, b, b2s(clk, b))
             elif a[0] in ('hang', 'raise', 'yinf', 'yv'):
                 return
+            elif a[0] == 'spawnabs':
+                spawn_at.setdefault(a[1], ('sys', s + F(a[2])))
+            elif a[0] in ('sig', 'unh') and mutate:
+                sig_at.setdefault(a[1], s)
+            elif a[0] == 'wait':
+                # parked (out of the clock) until the signal / unhang: resumes at the caller's logical time, on its
+                # own clock, whatever fraction of a beat that is
+                if a[1] not in sig_at:
+                    return
+                b = s2b(clk, sig_at[a[1]])
+                R[(rid, k + 1)] = (clk, b, b2s(clk, b))
             elif a[0] == 'pause' and mutate:
                 pause_at[a[1]] = s
             elif a[0] == 'resume' and mutate:
@@ -203,7 +217,7 @@ class Check(common.Check):
                 'spawns on SystemClock / TempoClocks (tempi 2^k) / AppClock (NRT), tempo changes by the root (`tempo=` and '
                 '`etempo`), bodies that raise (logged by the clock) while other routines go on; four '
                 'classes: plain multi-clock, single-clock with tempo changes, multi-clock with tempo changes, '
-                'NRT-only with AppClock; 10% pause/resume-without-clock of a routine on a TempoClock (tempo != 1) or AppClock by a controller on another clock; each runs in NRT (main.process) and in RT under virtual time with a '
+                'NRT-only with AppClock; 6% unhang/signal of a waiter on a TempoClock at a fractional beat, 6% reset()-while-pending plus tempo change (NRT), 6% children started with SystemClock.sched_abs(logical now + d) under RT lateness (these three judged by the script-only oracle, no model line); 10% pause/resume-without-clock of a routine on a TempoClock (tempo != 1) or AppClock by a controller on another clock; each runs in NRT (main.process) and in RT under virtual time with a '
                 'scripted lateness (zero, common, per-thread, per-wake-up random incl. lateness larger than the '
                 'next delta). Non-trivial: >=2 routines, >=1 yield with delta>0 and (a tempo clock or a lateness>0); '
                 'distinct by full case')
@@ -259,9 +273,97 @@ class Check(common.Check):
         return {'tempi': tempi, 'root': root, 'rts': [ctl, target], 'klass': 'P', 'tail': '0', 'rerun': False,
                 'late': None if app else {'mode': 'zero', 'vals': []}}
 
+    def gen_unhang(self, rng):
+        """A routine on a TempoClock waits on a Condition; a controller on another clock signals / unhangs it at a
+        logical time that is a FRACTIONAL beat of the waiter's clock."""
+        tempi = [rng.choice(['1/2', '1', '2', '4'])]
+        t = F(tempi[0])
+        pre = [['y', rng.choice(['1/4', '1/2', '1'])] for _ in range(rng.randint(0, 2))]
+        t_wait = sum(F(a[1]) for a in pre) / t
+        at = t_wait + rng.choice([F(1, 8), F(1, 4), F(3, 8), F(5, 8), F(3, 4), F(9, 8)]) / t     # beats fractional
+        waiter = [['log']] + pre + [['wait', 0], ['log']]
+        for _ in range(rng.randint(1, 3)):
+            waiter += [['y', rng.choice(['1/2', '1', '2'])], ['log']]
+        ctl = [['spawn', 1, 't0'], ['y', fr(at)], [rng.choice(['unh', 'unh', 'sig']), 0], ['log'], ['y', '1/2'], ['log']]
+        return {'tempi': tempi, 'root': 'sys', 'rts': [ctl, waiter], 'klass': 'U', 'tail': '0', 'rerun': False,
+                'late': {'mode': 'zero', 'vals': []}, 'nomodel': True}
+
+    def gen_reset(self, rng):
+        """NRT: a routine pending on a TempoClock is reset() from outside, and the tempo changes (either order):
+        the pending wake-up keeps its beat, moves in seconds with the tempo, and restarts the body."""
+        tempi = [rng.choice(['1/2', '1', '2'])]
+        t0 = F(tempi[0])
+        t1 = rng.choice([x for x in ['1/2', '1', '2', '4'] if x != tempi[0]])
+        deltas = [rng.choice(['1/2', '1', '1', '2']) for _ in range(rng.randint(2, 5))]
+        cum, b = [], F(0)
+        for d in deltas:
+            b += F(d)
+            cum.append(b / t0)
+        k = rng.randrange(len(cum))
+        lo = cum[k - 1] if k else F(0)
+        p = lo + (cum[k] - lo) * rng.choice([F(1, 4), F(1, 2), F(3, 4)])
+        change = [['reset', 1], ['tempo', 0, t1]]
+        if rng.random() < 0.3:
+            change.reverse()
+        ctl = [['spawn', 1, 't0'], ['y', fr(p)]] + change
+        return {'tempi': tempi, 'root': 'sys', 'rts': [ctl, [['y', d] for d in deltas]], 'klass': 'T', 'tail': '0',
+                'rerun': False, 'late': None, 'nomodel': True}
+
+    def gen_schedabs(self, rng):
+        """RT under lateness: children started from inside a routine with SystemClock.sched_abs(logical now + d)."""
+        n = rng.randint(2, 4)
+        rts = [[] for _ in range(n)]
+        for i in range(n):
+            for _ in range(rng.randint(1, 4)):
+                rts[i] += [['y', rng.choice(['1/8', '1/4', '1/2', '1'])], ['log']]
+        for i in range(1, n):
+            rts[0].insert(rng.randrange(len(rts[0]) + 1), ['spawnabs', i, rng.choice(['0', '1/64', '1/16', '1/8', '1/2'])])
+        late = {'mode': rng.choice(['common', 'random', 'random']),
+                'vals': [rng.choice(['1/4', '1/2', '1', '3/64', '1/1024']) for _ in range(rng.randint(1, 4))]}
+        return {'tempi': [], 'root': 'sys', 'rts': rts, 'klass': 'S', 'tail': '0', 'rerun': False, 'late': late,
+                'nomodel': True}
+
+    def check_reset(self, case, out):
+        from_, deltas = case['rts'][0], [F(a[1]) for a in case['rts'][1]]
+        p = F(from_[1][1])
+        t1 = next(a[2] for a in from_ if a[0] == 'tempo')
+        m = TempoMap(case['tempi'][0], F(0))
+        t0 = F(case['tempi'][0])
+        exp, b, k = [(0, F(0), F(0))], F(0), 0
+        while k < len(deltas) and (b + deltas[k]) / t0 < p:
+            b += deltas[k]
+            k += 1
+            exp.append((k, b, b / t0))
+        m.change(p, t1)
+        if k < len(deltas):                      # the wake-up pending at the reset: same beat, restarts the body
+            b += deltas[k]
+            exp.append((0, b, m.beats2secs(b)))
+            for j, d in enumerate(deltas):
+                b += d
+                exp.append((j + 1, b, m.beats2secs(b)))
+        evs, _, _ = parse_trace(out['trace'])
+        got = [(int(q[2]), F(q[4]), F(q[5])) for q in evs if q[0] == 'R' and q[1] == '1']
+        clks = {q[3] for q in evs if q[0] == 'R' and q[1] == '1'}
+        if got != exp or clks - {'t0'}:
+            show = lambda l: [(a, fr(b_), fr(c)) for a, b_, c in l]
+            return {'what': f'nrt: routine 1 on a TempoClock(tempo {case["tempi"][0]}), reset() from outside at '
+                            f'{fr(p)} s while pending, tempo set to {t1} at the same instant: expected resumptions '
+                            f'(position, beats, seconds) {show(exp)} on t0, observed {show(got)} on {sorted(clks)}',
+                    'signature': 'c05:exact:nrt:reset-retime'}
+        if out.get('error'):
+            return {'what': f'nrt: run failed: {out["error"]}', 'signature': 'c05:error:nrt'}
+        return None
+
     def gen_one(self, rng):
         if rng.random() < 0.12:
             return self.gen_float(rng)
+        w = rng.random()
+        if w < 0.06:
+            return self.gen_unhang(rng)
+        if w < 0.12:
+            return self.gen_reset(rng)
+        if w < 0.18:
+            return self.gen_schedabs(rng)
         if rng.random() < 0.1:
             return self.gen_pause(rng)
         klass = rng.choice('AAABBCCD')
@@ -348,8 +450,10 @@ class Check(common.Check):
         return [self.gen_one(rng) for _ in range(n)]
 
     # ---- runners --------------------------------------------------------------------------------
+    nrt_env = None
+
     def impl(self, cases):
-        nrt, err = common.run_impl('c05', 'run_nrt', {'cases': cases})
+        nrt, err = common.run_impl('c05', 'run_nrt', {'cases': cases}, extra_env=self.nrt_env)
         if nrt is None:
             self.notes.append('nrt: ' + err)
             return None
@@ -369,6 +473,9 @@ class Check(common.Check):
     def model(self, cases):
         lines, plan = [], []
         for c in cases:
+            if c.get('nomodel'):                 # judged by the script-only oracle (actions outside the model)
+                plan.append(None)
+                continue
             lines += lines_nrt(c)
             rt = getattr(self, '_rt', {}).get(common.canon(c))
             if c.get('late') is not None and rt is None:
@@ -382,6 +489,9 @@ class Check(common.Check):
         out = [l for l in out if l != 'reset']
         res, k = [], 0
         for c, has_rt in zip(cases, plan):
+            if has_rt is None:
+                res.append(None)
+                continue
             d = {'nrt': out[k], 'rt': None, 'nrt2': None, 'rt2': None}
             k += 1
             if c.get('rerun'):
@@ -398,7 +508,7 @@ class Check(common.Check):
         return res
 
     def compare(self, case, io, mo):
-        if case.get('float'):
+        if case.get('float') or case.get('nomodel'):
             return None          # binary64 rounding is outside the Rat model: judged by the float oracle only
         d = {}
         if io['nrt']['trace'] != mo['nrt']:
@@ -501,7 +611,7 @@ class Check(common.Check):
         for what, o in (('NRT', nrt), ('NRT second play after main.reset()', nrt.get('rerun'))):
             if o is not None and o.get('error'):
                 return {'what': f'{what}: the library failed or hung: {o["error"]}', 'signature': 'c05:error:nrt'}
-        v = self.check_run(case, nrt, 'nrt', 0)
+        v = self.check_reset(case, nrt) if case.get('klass') == 'T' else self.check_run(case, nrt, 'nrt', 0)
         if v:
             return v
         ts = [F(t) for t in nrt['task_times']]
